@@ -2,7 +2,7 @@
    processes and hash seeds (C14)."""
 import os, json, subprocess, filecmp, glob, shutil, signal
 
-FAMILIES = ["chain", "chain_bonds", "dots", "dot_rings", "branches", "comb", "comb_stereo", "brackets", "nested8", "long_branch", "tail_branch", "macrocycle", "stereo_chain"]
+FAMILIES = ["chain", "chain_bonds", "dots", "dot_rings", "branches", "comb", "comb_stereo", "brackets", "nested8", "long_branch", "tail_branch", "macrocycle", "stereo_chain", "dots_in_branch", "chain_dot_branch"]
 SPAN_LIMIT = 64 * 1024   # bytes of stack between the shallowest and deepest follower callback, nesting <= 8
 
 
@@ -29,7 +29,28 @@ def c19_stack(run, mod):
         if not ok:
             why = "aborted (signal or panic)" if rc not in (0,) else "stack span or result out of bounds"
             run.failing.append({"check": "C19.stack_family", "input": "%s n=%d" % (fam, n), "observed": row, "rc": rc, "why": why + " " + err[-160:]})
+    # the same families on a 512 KiB stack: any recursion per atom, bond, dot or ring digit (in the reader, the trace, the builder, the
+    # traversal or the writer, whether or not a follower callback sees it) needs megabytes at this size; nesting in these families is <= 8
+    small = []
+    for fam in FAMILIES:
+        n = 200000
+        try:
+            r = subprocess.run([os.path.join(mod.BIN, "stack"), fam, str(n), "512"], stdout=subprocess.PIPE, stderr=subprocess.PIPE, text=True, timeout=600, env=mod.ENV)
+            rc, out, err = r.returncode, r.stdout, r.stderr
+        except subprocess.TimeoutExpired:
+            rc, out, err = 124, "", "timeout"
+        row = None
+        for line in out.splitlines():
+            if line.startswith("{"):
+                try: row = json.loads(line)
+                except Exception: pass
+        ok = rc == 0 and row is not None and row.get("ok")
+        small.append({"family": fam, "n": n, "stack_kib": 512, "rc": rc, "ok": bool(ok)})
+        run.obligations.append({"name": "stack family %s at n=%d completes on a 512 KiB stack" % (fam, n), "kind": "run of the implementation in a child process", "discharged": bool(ok)})
+        if not ok:
+            run.failing.append({"check": "C19.stack_family", "input": "%s n=%d on a 512 KiB stack" % (fam, n), "observed": row, "rc": rc, "why": "aborted (signal or panic) " + err[-160:]})
     run.coverage["stack_families"] = results
+    run.coverage["stack_families_small_stack"] = small
     run.samples.append(results[0])
 
 
@@ -79,12 +100,12 @@ def c04_deep(run, mod):
 
 
 LARGE_FAMILIES = ["chain", "chain_bonds", "macrocycle", "macro2", "branches_c", "tail_branch", "long_branch", "hub_then_ring", "hub_ring_first", "spiro",
-                  "rings_then_unmatched", "rings_then_duplicate", "ladder", "stereo_chain", "dot_rings", "dots", "comb", "comb_stereo", "nested8", "brackets", "branches"]
+                  "rings_then_unmatched", "rings_then_duplicate", "ladder", "stereo_chain", "dot_rings", "dots", "comb", "comb_stereo", "nested8", "brackets", "branches", "dots_in_branch", "chain_dot_branch"]
 HUBS = ("branches_c", "hub_then_ring", "hub_ring_first", "branches")      # quadratic in the degree: kept below 66 000
 # which property a failing stage of the large-molecule runner speaks about
 STAGE_OWNERS = [
     ("read", ("C04", "C09", "C01")), ("written text is refused", ("C04", "C09", "C01")),
-    ("panics", ("C06",)), ("aborted", ("C06", "C19")),
+    ("panics", ("C06", "C09")), ("differs from the input in normal form", ("C09", "C01", "C07")), ("aborted", ("C06", "C19")),
     ("built graph is not the denotation", ("C02", "C10")),
     ("trace", ("C15",)),
     ("walk", ("C11", "C06", "C01")),
